@@ -57,6 +57,20 @@ Definition gp_closed_b (init : hist) (ops : list gop) (fin : hist) : bool :=
 Definition pz_inv_b (blo bgr : list point) (s : pz) : bool :=
   pts_eqb (p_lower s) (blo ++ p_lower_lies s) && pts_eqb (p_greater s) (bgr ++ p_greater_lies s).
 
+(* C15, endpoint clause, on what the optimiser of the GP endpoint is handed: the pending points are the tail of the model's data,
+   carrying one value that is not below any value of the data the model was built from, and the lie noise - or they are the
+   pending set of parallel EI and parallel EI is what runs *)
+Definition pending_fed_b (h : hist) (pending : list point) (observed : hist) (pending_set : list point) (used_qei : bool) : bool :=
+  let k := length pending in
+  (negb used_qei &&
+   pts_eqb (h_pts observed) (h_pts h ++ pending) &&
+   vec_eqb (h_noise observed) (h_noise h ++ repeat lie_noise k) &&
+   match skipn (length (h_vals h)) (h_vals observed) with
+   | [] => Nat.eqb k 0 && vec_eqb (h_vals observed) (h_vals h)
+   | v :: _ => vec_eqb (h_vals observed) (h_vals h ++ repeat v k) && forallb (fun y => Qle_bool y v) (h_vals h)
+   end)
+  || (used_qei && pts_eqb pending_set pending && negb (Nat.eqb k 0)).
+
 (* ---- stub optimisers, mirrored exactly by the Python harness ---- *)
 Definition stub_of (pts : list point) (vals : list Q) : point :=
   let n := inject_Z (Z.of_nat (length pts)) in
@@ -83,7 +97,10 @@ Inductive case :=
 | CCLSum (comps : list hist) (weights : list Q) (n : nat) (picks : list point) (seen : list hist) (unchanged : bool)
 | CSearch (lo hi : list Q) (init : search_af) (draws : list Q) (n : nat) (picks : list point) (seen : list search_af)
           (final : search_af)
-| CFeedGp (qei multitask : bool) (h : hist) (pending : list point) (lie : Q) (observed : hist)
+(* one GP the GP endpoint built: [objective] = it is (a component of) the predictor of the acquisition function the optimiser was
+   handed, otherwise a GP under the failure model; h, lie: what form_single_gaussian_process was given; observed: the data of that
+   GP object WHEN THE OPTIMISER IS CALLED; pending_set, used_qei: the pending set of the acquisition function and which optimiser ran *)
+| CFeedGp (qei multitask objective : bool) (h : hist) (pending : list point) (lie : Q) (observed : hist)
           (pending_set : list point) (used_qei : bool)
 | CFeedPz (before : pz) (pending : list point) (after : pz)
 | CFeedSearch (lo hi : list Q) (sampled pending : list point) (observed : list point).
@@ -116,11 +133,19 @@ Definition check (c : case) : bool :=
   | CSearch lo hi init draws n picks seen final =>
       let '(ps, ss, fin) := search_loop (unit_cube lo hi) (stub_pick_search lo hi) draws n init in
       pts_eqb ps picks && list_eqb search_eqb ss seen && search_eqb fin final && search_eqb init final
-  | CFeedGp qei multitask h pending lie observed pending_set used_qei =>
-      match feed_gp (if qei then QEI else ConstantLiar) multitask h pending lie with
-      | inl f => hist_eqb false false (f_hist f) observed && pts_eqb (f_pending_set f) pending_set && Bool.eqb (f_use_qei f) used_qei
-      | inr _ => false
-      end
+  | CFeedGp qei multitask objective h pending lie observed pending_set used_qei =>
+      let par := if qei then QEI else ConstantLiar in
+      if objective then
+        match feed_gp par multitask h pending lie with
+        | inl f => hist_eqb false false (f_hist f) observed && pts_eqb (f_pending_set f) pending_set && Bool.eqb (f_use_qei f) used_qei &&
+                   pending_fed_b h pending observed pending_set used_qei
+        | inr _ => false
+        end
+      else
+        match feed_failure_gp par h pending lie with
+        | inl h' => hist_eqb false false h' observed
+        | inr _ => false
+        end
   | CFeedPz before pending after =>
       match feed_parzen before pending with (s, None) => pz_eqb s after | _ => false end
   | CFeedSearch lo hi sampled pending observed =>
